@@ -779,6 +779,21 @@ def m1_m4_scenes_image(ctx: Any, prog: Program) -> None:
         return 'unknown'
     # the summary of an entry is what its scene says about itself: Entry.from_scene takes duration / last speak / sounds from the scene's own
     # methods (which the readers of a scene use as well); a summary worked out separately is a second definition that can disagree
+    # an entry whose Scene has been handed out is no longer raw: the writer copies `_data` verbatim while it is still the (bytes, pool) pair,
+    # and a Scene is mutable - so the `data` property replaces `_data` by the Scene it parses.  A parse kept in another field leaves the raw
+    # block in place, and every edit made through the returned Scene is dropped on save.
+    dprop = next((f_ for f_ in mod.cls('Entry').body if isinstance(f_, ast.FunctionDef) and f_.name == 'data' and any(dotted(d) == 'property' for d in f_.decorator_list)), None)
+    if dprop is None:
+        ctx.shape('C20.M4', False, mod, mod.cls('Entry'), 'Entry.data property not found', func='Entry.data', text='parsed scene replaces the raw block')
+    else:
+        parses = [c for c in ast.walk(dprop) if isinstance(c, ast.Call) and (dotted(c.func) or '').endswith('parse_binary')]
+        ctx.shape('C20.M4', len(parses) == 1, mod, dprop, f'{len(parses)} parse_binary calls in Entry.data', func='Entry.data', text='Entry.data parses the raw block')
+        for pc in parses:
+            asg = mod.parents.get(pc)
+            into = [dotted(t) for t in asg.targets] if isinstance(asg, ast.Assign) else []
+            me_d = dprop.args.args[0].arg
+            ctx.check('C20.M4', f'{me_d}._data' in into, mod, pc, f'Entry.data stores the parsed Scene in `{into[0] if into else U(asg)[:40]}` and leaves `_data` holding the raw bytes: the image writer copies raw entries '
+                      'verbatim, so changes made to the Scene this property returned are never written', func='Entry.data', text='parsed scene replaces the raw block')
     fsn = mod.methods('Entry').get('from_scene')
     if fsn is None:
         ctx.shape('C20.M4', False, mod, sf, 'Entry.from_scene not found', func='Entry.from_scene', text='summary from the scene')
@@ -1159,6 +1174,30 @@ def m2_sndscript(ctx: Any, prog: Program) -> None:
                     key = U(c.args[0].values[0]).strip("'\\t ") if c.args[0].values else '?'
                     ctx.check('C20.M2', inq or not multi, mod, c, f'`{U(v.value)}` can produce "low, high"; written outside quotes the comma becomes a token of its own and the file no longer parses',   # type: ignore[attr-defined]
                               func='Sound.export', text=f'range value quoted: {U(v.value)[:40]}')                                                                    # type: ignore[attr-defined]
+    # a key the writer leaves out when it has its usual value is filled in by the reader with that very value: `if self.volume != (1, 1):` on
+    # one side, default 1.0 on the other.  A default that is not numerically that constant (the symbol VOL_NORM is not the number 1) reads back
+    # as something the writer then does NOT leave out - the value changes, and so does the second export.
+    sfold = Folder(prog, mod)
+    for key_ in ('volume', 'pitch'):
+        omit = [t for t in ast.walk(exp) if isinstance(t, ast.Compare) and len(t.ops) == 1 and isinstance(t.ops[0], ast.NotEq) and dotted(t.left) == f'self.{key_}' and isinstance(t.comparators[0], ast.Tuple)
+                and all(isinstance(e, ast.Constant) and isinstance(e.value, (int, float)) for e in t.comparators[0].elts)]
+        dflt = [c for c in ast.walk(par) if isinstance(c, ast.Call) and dotted(c.func) == 'parse_split_float' and len(c.args) >= 4 and isinstance(c.args[1], ast.Constant) and c.args[1].value == key_]
+        if len(omit) != 1 or len(dflt) != 1:
+            ctx.shape('C20.M2', False, mod, exp, f'omission test / reader default of `{key_}` not found once', func='Sound.export', text=f'soundscript default of {key_}')
+            continue
+        consts_ = {float(e.value) for e in omit[0].comparators[0].elts}
+        d_ = dflt[0].args[3]
+        try:
+            dv = sfold.fold(d_, {})
+        except Exception:          # noqa: BLE001
+            dv = None
+        num = None
+        if isinstance(dv, (int, float)) and not isinstance(dv, bool):
+            num = float(dv)
+        elif dv is not None and hasattr(dv, 'value') and hasattr(dv, 'cls') and mod.has_class(dv.cls) and any(dotted(b) == 'float' for b in mod.cls(dv.cls).bases) and isinstance(dv.value, (int, float)):
+            num = float(dv.value)          # a float-derived enum member compares equal to its number
+        ctx.check('C20.M2', num is not None and consts_ == {num}, mod, d_, f'Sound.export leaves `{key_}` out when it equals {tuple(sorted(consts_))}, but parse_one fills a missing `{key_}` with `{U(d_)}`'
+                  + (' - not a number: the value read back differs from the one written, and is written out explicitly next time' if num is None else f' = {num}'), func='Sound.parse_one', text=f'soundscript default of {key_}')
     # the numbers of a range are written so that split_float() reads the same float back: str()/repr() of a float is its shortest exact form;
     # a fixed number of decimals (format_float, `:.3f`, round()) is not
     jfn = mod.func('join_float')
@@ -1562,6 +1601,9 @@ def m5_tables(ctx: Any, prog: Program) -> None:
 
 
 MUTANTS: List[Dict[str, Any]] = [
+    {'id': 'entry_parse_cached_beside_raw_block', 'file': 'choreo.py', 'find': "            self._data = Scene.parse_binary(BytesIO(data), string_pool)\n        return self._data", 'replace': "            self._parsed = Scene.parse_binary(BytesIO(data), string_pool)\n            return self._parsed\n        return self._data", 'expect': 'C20.M4'},
+    {'id': 'missing_volume_read_as_symbol', 'file': 'sndscript.py', 'find': "            VOLUME.__getitem__,\n            1.0,", 'replace': "            VOLUME.__getitem__,\n            VOL_NORM,", 'expect': 'C20.M2'},
+    {'id': 'ok_missing_pitch_read_as_float_enum', 'file': 'sndscript.py', 'find': "            Pitch.__getitem__,\n            100.0,", 'replace': "            Pitch.__getitem__,\n            Pitch.PITCH_NORM,", 'expect': None, 'refuse_ok': True},
     {'id': 'operator_function_name_left_in_options', 'file': 'particles.py', 'find': "Operator(ele.name, ele.pop('functionName').val_str, {", 'replace': "Operator(ele.name, ele['functionName'].val_str, {", 'expect': 'C20.M2'},
     {'id': 'ok_operator_function_name_filtered_folded', 'file': 'particles.py', 'find': "Operator(ele.name, ele.pop('functionName').val_str, {", 'replace': "Operator(ele.name, ele['functionName'].val_str, {", 'extra': [{'file': 'particles.py', 'find': "                    if key != 'name'  # Stored in Operator.name.", 'replace': "                    if key not in ('name', 'functionname')"}], 'expect': None, 'refuse_ok': True},
     {'id': 'rndwave_list_written_unescaped_in_one_go', 'file': 'sndscript.py', 'find': "            for wav in self.sounds:\n                file.write(f'\\t\\twave \"{escape_text(wav)}\"\\n')\n", 'replace': "            file.writelines([f'\\t\\twave \"{wav}\"\\n' for wav in self.sounds])\n", 'expect': 'C20.M2'},
